@@ -26,9 +26,19 @@ def run(pid, tier, seed, repo='/repo'):
     for profile in (['debug', 'release'] if tier == 'thorough' else ['debug']):
         p = subprocess.run(['cargo', 'build', '--offline'], cwd=CRATE, env=cargo_env(profile, 'target-c16'), capture_output=True, text=True, timeout=1800)
         if p.returncode != 0:
-            # every generated literal is accepted by the runtime parser, so it must compile
-            failures.append(dict(property=pid, source='c16-compile', profile=profile, obligation='c16::compile[%s]#a literal the runtime parser accepts compiles' % profile,
-                                 what='a valid literal does not compile', input='\n'.join(p.stderr.split('\n')[:25]), verifier_output=p.stderr[-1500:]))
+            # every generated literal is accepted by the runtime parser, so it must compile: an error located in the generated
+            # literal program (src/gen.rs) is a violation; an error anywhere else (the harness's own code, a changed API) is not
+            # a verdict about the property
+            import re as _re
+            errs = _re.findall(r'(error[^\n]*)\n\s*--> (src/\w+\.rs):(\d+)', p.stderr)
+            in_gen = [e for e in errs if e[1] == 'src/gen.rs']
+            if in_gen:
+                gl = open(os.path.join(CRATE, 'src', 'gen.rs')).read().split('\n')
+                shown = '\n'.join('%s\n    %s' % (e[0], gl[int(e[2]) - 1].strip()[:200]) for e in in_gen[:4])
+                failures.append(dict(property=pid, source='c16-compile', profile=profile, obligation='c16::compile[%s]#a literal the runtime parser accepts compiles' % profile,
+                                     what='a valid literal does not compile', input=shown, verifier_output=p.stderr[-1500:]))
+            else:
+                undecided.append('c16 crate does not build (%s), error outside the generated literals: %s' % (profile, '; '.join('%s @ %s:%s' % e for e in errs[:3]) or p.stderr[-400:]))
             continue
         binp = os.path.join(cargo_env(profile, 'target-c16')['CARGO_TARGET_DIR'], 'debug', 'bioseq-c16')
         r = subprocess.run([binp], capture_output=True, text=True, timeout=600)
